@@ -12,6 +12,7 @@
 EXTENDS Naturals, Sequences, TLC, Json, IOUtils
 
 Rec == ndJsonDeserialize(IOEnv.TRACE)
+Unsupported == ToJson([k |-> "unsupported"])
 
 VARIABLES l,        \* next line
           cur,      \* id of the current case
@@ -39,7 +40,9 @@ TCall ==
   /\ LET o == ToJson(Rec[l].out)  j == Rec[l].j + 1 IN
      IF collecting THEN ref' = Append(ref, o)
      ELSE /\ UNCHANGED ref
-          /\ IF j <= Len(ref) /\ ref[j] = o THEN TRUE
+          \* a call the harness cannot make without the optional feature (constructors, clone_dyn) is recorded as
+          \* "unsupported" there; it says nothing about the library and is not compared
+          /\ IF (j <= Len(ref) /\ ref[j] = o) \/ Rec[l].out.k = "unsupported" \/ (j <= Len(ref) /\ ref[j] = Unsupported) THEN TRUE
              ELSE PrintT(<<"VIOL", ToJson([run |-> Rec[l].run, j |-> Rec[l].j, line |-> l, props |-> {"C08"}, id |-> cur,
                                            call |-> Rec[l].call, out |-> Rec[l].out, cfg |-> curcfg, place |-> "end",
                                            ref |-> IF j <= Len(ref) THEN ref[j] ELSE "missing", refcfg |-> refcfg])>>)
